@@ -30,6 +30,7 @@ theorem skel_SessionStore_Load_ok : skel_SessionStore_Load = ([
   "encryption.Validate",
   "if !ok",
   "return nil, errors.New(\"cookie signature not valid\")",
+  "errors.New",
   "sessions.DecodeSessionState",
   "if err != nil",
   "return nil, err",
